@@ -74,7 +74,6 @@ func StartFull(w *World, conf FullConf, basePort int, setup func(b *lime.ServerB
 	if len(conf.Listeners) == 0 {
 		return nil, errors.New("no listeners")
 	}
-	srvTLS, _ := TLSConfigs()
 	b := lime.NewServerBuilder().Name(serverNode.Name).Domain(serverNode.Domain).Instance(serverNode.Instance).ChannelBufferSize(conf.Buf)
 	if len(conf.Enc) > 0 {
 		b.EncryptionOptions(toEnc(conf.Enc)...)
@@ -85,16 +84,16 @@ func StartFull(w *World, conf FullConf, basePort int, setup func(b *lime.ServerB
 	for i, k := range conf.Listeners {
 		switch k {
 		case "tcp":
-			b.ListenTCP(tcpAddr(basePort+i), traced(conf.Trace, &lime.TCPConfig{}))
+			b.ListenTCP(tcpAddr(basePort+i), traced(conf.Trace, SrvTCPConfig(false)))
 			f.InProc = append(f.InProc, "")
 		case "tcptls":
-			b.ListenTCP(tcpAddr(basePort+i), traced(conf.Trace, &lime.TCPConfig{TLSConfig: srvTLS}))
+			b.ListenTCP(tcpAddr(basePort+i), traced(conf.Trace, SrvTCPConfig(true)))
 			f.InProc = append(f.InProc, "")
 		case "ws":
-			b.ListenWebsocket(tcpAddr(basePort+i), &lime.WebsocketConfig{})
+			b.ListenWebsocket(tcpAddr(basePort+i), SrvWSConfig(false))
 			f.InProc = append(f.InProc, "")
 		case "wss":
-			b.ListenWebsocket(tcpAddr(basePort+i), &lime.WebsocketConfig{TLSConfig: srvTLS})
+			b.ListenWebsocket(tcpAddr(basePort+i), SrvWSConfig(true))
 			f.InProc = append(f.InProc, "")
 		default:
 			a := lime.InProcessAddr(fmt.Sprintf("ip-%d-%d-%d", basePort, i, ProcUniq()))
